@@ -34,6 +34,11 @@ CHECKS = {
    text="From five stored layouts (one domain; contiguous rolled-over domains; a data domain spanning several index domains; gapped sessions; back-filled sessions sharing data files) every history up to the depth bound of delete(channel set, [a,b)) with bounds on / 1ns before / 1ns after samples and beyond the data, synchronous GC passes (through the verif hook, also after a reopen so that sub-cap files are collectable), reopen, and new write sessions into holes. After every step every half-open read over {0,t-1ns,t,t+1ns,max} of every channel must equal the reference minus the deleted timestamps; un-named channels untouched; an index delete must be refused while an un-named dependant has samples in range; GC must change no read.",
    note="in-memory xfs.MemFS; go1.26.8 toolchain; deletes only while no writer is open; deletes the engine refuses although legal are counted as observations (state must be unchanged or per-channel exactly deleted), not judged; file sizes recorded, not judged.",
    design="3/C04"),
+ "C10": dict(level="model_checking", engine="seqx",
+   technique="explicit-state BFS over iterator command sequences on stored layouts built through the public API; per-step oracle Value()==samples in View(); exhaustive full traversals per span",
+   text="For four (thorough: six) stored layouts (single domain, gapped domains, contiguous rolled-over domains, deletion cuts) x three channels (8-byte, index, variable-length) x bounds (unbounded; starting between samples and ending on a sample) x auto chunk sizes: every command sequence up to the depth bound over SeekFirst/SeekLast/SeekLE/SeekGE(15 positions)/Next/Prev(5 spans from 1ns to max)/Next/Prev(AutoSpan)/SetBounds; after every step the returned samples must equal the stored samples inside the reported view, consecutive same-direction views must be adjacent; plus every full forward/backward traversal per span must visit each sample in bounds exactly once.",
+   note="in-memory xfs.MemFS; go1.26.8 toolchain; the unary iterator is driven directly (only it reports View()); a step that reports !Valid() offers no value and stale Value() content is not judged; after a failed seek or a sticky iterator error only seeks are issued; auto-span stepping has recorded known findings (KNOWN_FINDINGS.txt), identified by the shape of the disagreement.",
+   design="3/C10"),
 }
 NOT_YET = {}
 props = [json.loads(l) for l in open(os.path.join(HERE, "properties.jsonl"))]
